@@ -265,14 +265,14 @@ def manifest():
         'hooks': {
             'guard': 'PYXTUML_VERIF',
             'enable': 'PYXTUML_VERIF=1 PYXTUML_VERIF_TRACE=<file> with /verif/vt/hooks on PYTHONPATH: xtuml.meta.relate / unrelate / '
-                      'delete / MetaClass.new are wrapped by the tracer /verif/vt/hooks/xtuml_verif_hook.py, which records every '
-                      'top-level call with the projected state before and after it (only ./check C02 turns them on, to validate '
-                      'the repository tests; with the variable unset the decorator returns the functions unchanged). All other '
+                      'delete / MetaClass.new and ModelLoader.input / build_metamodel are wrapped by the tracer '
+                      '/verif/vt/hooks/xtuml_verif_hook.py, which records every top-level call with the projected state before and '
+                      'after it (only ./check C02 and ./check C12 turn them on, to validate the repository tests; with the variable unset the decorator returns the functions unchanged). All other '
                       'observations need no hook: pyxtuml is a sequential library and every action is observed at the return of '
                       'a public call; checks copy /repo/xtuml and /repo/bridgepoint (working tree) to a scratch directory, '
                       'regenerate the ply tables there and put it first on PYTHONPATH',
             'baseline_off_cmd': 'cd /repo && /venv/bin/python -m pytest -q -p no:cacheprovider --timeout=900',
-            'source_commits': ['b50de69'],
+            'source_commits': ['b50de69', 'e346d6a'],
             'add_only': True,
         },
         'engines': [{
